@@ -6,7 +6,8 @@ From Verif Require Import Word Conc Gen_consts Gen_fields Gen_rootq RootQ.
 Import ListNotations.
 Local Open Scope Z_scope.
 
-(* ---- ties to the generated module ---- *)
+(* ---- ties to the generated module: the site lists of the C functions, in program order, are the sites of the model's
+   program points (pc_sites) ---- *)
 Lemma sites_push : model_sites_push = f_dispatch_root_queue_push_inline_sites.
 Proof. reflexivity. Qed.
 Lemma sites_poke : model_sites_poke = f_dispatch_root_queue_poke_sites.
@@ -17,10 +18,15 @@ Lemma sites_mediator_is_gone : model_sites_mediator_is_gone = f_dispatch_root_qu
 Proof. reflexivity. Qed.
 Lemma sites_quiesced : model_sites_quiesced = f_dispatch_root_queue_head_tail_quiesced_sites.
 Proof. reflexivity. Qed.
-(* the contended wait's own sites: the first two are the static _seed of _dispatch_contention_spins (not the queue) *)
+(* the contended wait's own sites: the first two are the static _seed of _dispatch_contention_spins (not the queue), then
+   the increment and the decrement of dgq_pending (the decrement is also what PCwOut executes) *)
 Lemma sites_cwait : skipn 2 f__DISPATCH_ROOT_QUEUE_CONTENDED_WAIT___sites = model_sites_cwait_pending.
 Proof. reflexivity. Qed.
+Lemma sites_cwait_out : skipn 3 f__DISPATCH_ROOT_QUEUE_CONTENDED_WAIT___sites = model_sites_cwait_out.
+Proof. reflexivity. Qed.
 Lemma sites_drain_one : model_sites_drain_one = f_dispatch_root_queue_drain_one_sites.
+Proof. reflexivity. Qed.
+Lemma sites_wait_for_enqueuer : model_sites_wait_for_enqueuer = f_dispatch_wait_for_enqueuer_sites.
 Proof. reflexivity. Qed.
 Lemma sites_worker : model_sites_worker = f_dispatch_worker_thread_sites.
 Proof. reflexivity. Qed.
@@ -28,6 +34,72 @@ Lemma sites_sem_signal : model_sites_sem_signal = dispatch_semaphore_signal_site
 Proof. reflexivity. Qed.
 Lemma sites_sem_wait : model_sites_sem_wait = dispatch_semaphore_wait_sites.
 Proof. reflexivity. Qed.
+
+(* every atomic event the hook can report that tstep accepts at a program point is one of that point's sites *)
+Lemma tstep_site oc p e p' : tstep oc p e = Some p' -> is_atomic_ev e = true -> existsb (site_ok e) (pc_sites oc p) = true.
+Proof.
+  unfold is_atomic_ev. intros H A. apply andb_true_iff in A as [A A3]. apply andb_true_iff in A as [A1 A2].
+  apply Z.leb_le in A1, A2. apply negb_true_iff in A3. apply Z.eqb_neq in A3.
+  assert (U : forall k, 100 <= k -> ev_kind e k = false).
+  { intros k Hk. unfold ev_kind. apply Z.eqb_neq. lia. }
+  assert (N : forall k ob off, 32 <= k -> ev_at e k 0 ob off = false).
+  { intros k ob off Hk. unfold ev_at. destruct (Z.eqb_spec (ek e) k); [lia|reflexivity]. }
+  assert (P : forall k ob off, ev_at e k MO_PLAIN ob off = false).
+  { intros k ob off. unfold ev_at. destruct (Z.eqb_spec (eord e) MO_PLAIN); [contradiction|]. rewrite andb_false_r. reflexivity. }
+  destruct p; cbn [tstep pc_sites existsb] in *;
+    rewrite ?(U DVU_CALL), ?(U DVU_RET), ?(U DVU_CALLOUT_END), ?(U DVU_CALLOUT_BEGIN), ?P in H by (cbv; discriminate);
+    try discriminate H.
+  all: try (destruct c; discriminate H).
+  all: try (rewrite N in H by (cbv; discriminate); discriminate H).
+  all: unfold ev_at in H.
+  all: repeat match type of H with
+       | (if ?c then _ else _) = Some _ => destruct c eqn:?; try discriminate H
+       | (let _ := _ in _) = Some _ => cbv zeta in H
+       end.
+  all: repeat match goal with X : (_ && _) = true |- _ => apply andb_true_iff in X as [? ?] end.
+  all: repeat match goal with X : (?a =? ?b) = true |- _ => apply Z.eqb_eq in X end.
+  all: try solve [exfalso; match goal with X : ek _ = _ |- _ => rewrite X in A1, A2 end; cbv in A1, A2;
+                  first [apply A2; reflexivity | apply A1; reflexivity]].
+  all: unfold site_ok, field_at;
+       repeat match goal with X : ek _ = _ |- _ => rewrite X; clear X | X : eord _ = _ |- _ => rewrite X; clear X
+                         | X : eobj _ = _ |- _ => rewrite X; clear X | X : eoff _ = _ |- _ => rewrite X; clear X end.
+  all: try reflexivity.
+  all: try (destruct first; repeat match goal with X : eord _ = _ |- _ => rewrite X; clear X end; reflexivity).
+  all: try (destruct oc; repeat match goal with X : (_ && _) = true |- _ => apply andb_true_iff in X as [? ?] end;
+            repeat match goal with X : (?a =? ?b) = true |- _ => apply Z.eqb_eq in X end;
+            repeat match goal with X : ek _ = _ |- _ => rewrite X; clear X | X : eord _ = _ |- _ => rewrite X; clear X
+                         | X : eobj _ = _ |- _ => rewrite X; clear X | X : eoff _ = _ |- _ => rewrite X; clear X end;
+            try discriminate; reflexivity).
+Qed.
+
+Lemma gstep_tstep oc s t e s' : gstep oc s t e = Some s' -> tstep oc (pcs s t) e = Some (pcs s' t).
+Proof.
+  unfold gstep. destruct (tstep oc (pcs s t) e) as [p'|]; [|discriminate]. destruct (effect oc s t e); [|discriminate].
+  intros H. injection H as <-. cbn. rewrite upd_same. reflexivity.
+Qed.
+
+(* the conformance automaton is the model automaton plus at most one hidden step (plain read / pthread_create) *)
+Definition hidden_ev (e : event) : bool := (eord e =? MO_PLAIN) || (ek e =? DVX_CREATE).
+Lemma tstep_vis_sound oc p e p' : tstep_vis oc p e = Some p' ->
+  tstep oc p e = Some p' \/ exists h p1, hidden_ev h = true /\ tstep oc p h = Some p1 /\ tstep oc p1 e = Some p'.
+Proof.
+  destruct p; cbn [tstep_vis]; intros H; try (left; exact H); right.
+  - destruct (rem =? 1) eqn:E; [|discriminate]. apply Z.eqb_eq in E. subst rem.
+    exists (ev_create 0), (kret k). split; [reflexivity|]. split; [reflexivity|exact H].
+  - destruct (ev_at e DV_SUB MO_ACQUIRE OBJ_SEM OFF_VALUE).
+    + exists (ev_pl_tail 0), PSemDec. split; [reflexivity|]. split; [reflexivity|exact H].
+    + exists (ev_pl_tail 1), (PCwEval true false). split; [reflexivity|]. split; [reflexivity|exact H].
+  - destruct (ev_at e DV_STORE MO_RELAXED OBJ_Q OFF_HEAD); [|discriminate]. destruct (eb e =? 0) eqn:E.
+    + exists (ev_pl_next h 0), (PDrainStoreNull h). split; [reflexivity|]. split; [|exact H].
+      cbn. unfold ev_at. cbn. rewrite !Z.eqb_refl. reflexivity.
+    + exists (ev_pl_next h (eb e)), (PDrainStoreHead h (eb e)). split; [reflexivity|]. split; [|exact H].
+      cbn. unfold ev_at. cbn. rewrite !Z.eqb_refl, E. reflexivity.
+  - destruct (ev_kind e DV_CASW).
+    + exists (mkEv DV_LOAD MO_PLAIN OBJ_SEM OFF_VALUE 8 (s64 (eb e) - 1) 0 1), (PSemUndo (s64 (s64 (eb e) - 1))).
+      split; [reflexivity|]. split; [reflexivity|exact H].
+    + destruct (ev_kind e DV_SEM_WAIT); [|discriminate].
+      exists (mkEv DV_LOAD MO_PLAIN OBJ_SEM OFF_VALUE 8 0 0 1), (PSemUndo 0). split; [reflexivity|]. split; [reflexivity|exact H].
+Qed.
 
 (* ---- lists ---- *)
 Fixpoint adjacent (a b : Z) (l : list Z) : Prop :=
